@@ -151,6 +151,7 @@ func TestProp(t *testing.T) {
 		})
 	}
 	runBursts(rep, env, ps)
+	runNoRefreshToken(rep, env, ps)
 	if env.Replay == "" {
 		runSharedTokenPairs(rep, env, ps)
 		runCrossUpstreamRevocation(rep, env, ps)
@@ -820,4 +821,71 @@ func burstClass(n int) string {
 		return "33-to-64"
 	}
 	return "more-than-64"
+}
+
+// runNoRefreshToken: a login that came without a refresh token. Once the access-token expiry has
+// elapsed the authenticator cannot confirm the token again (nothing to redeem), so the next request -
+// and every one after it - is not served; the lifetime bound is unaffected. (Added after seeded change
+// C04m - "missing refresh token" treated as "nothing to refresh", after which the session is never
+// checked again - was missed: every login in the histories carried a refresh token.)
+func runNoRefreshToken(rep *vh.Report, env vh.Env, ps *sut.ProxyStack) {
+	only, skip := env.Only("c04-no-refresh-token")
+	if skip {
+		return
+	}
+	n := env.Pick(80, 1200)
+	vh.ForEach(n, 0, only, func(i int) {
+		r := vh.CaseRNG(env.Seed, "c04-no-refresh-token", i)
+		host := []string{"dom.sso.test", "grp.sso.test"}[r.Intn(2)]
+		uid := sut.NewID()
+		email := "user" + uid + "@corp.test"
+		at := "nat-" + uid
+		ps.Auth.Set("profile", at, sut.ProfileOK(email, []string{"other", "eng"}))
+		ps.Auth.Set("validate", at, sut.ValidateOK())
+		defer ps.Auth.Unset("profile", at)
+		defer ps.Auth.Unset("validate", at)
+		b := ps.NewBrowser(host)
+		lr := b.Login("/start-"+uid, sut.RedeemOK(email, at, "", int64(R/time.Second)))
+		if lr.Code != "" {
+			defer ps.Auth.Unset("redeem", lr.Code)
+		}
+		rep.Eval()
+		if b.Cookie == "" {
+			rep.Count("no_refresh_token_login_refused", 1) // also a legitimate answer to such a login
+			return
+		}
+		if s := b.Session(); s == nil || s.RefreshToken != "" {
+			rep.Count("no_refresh_token_login_got_a_refresh_token", 1)
+			return
+		}
+		// inside the token's life the session works
+		b.Advance(time.Duration(60+r.Intn(500)) * time.Second)
+		if rs, _, _ := b.Do(sut.Req{Target: "/early"}); rs.Err == nil && len(ps.Hits(rs.ID)) > 0 {
+			rep.Count("no_refresh_token_served_before_token_expiry", 1)
+		}
+		// past the access-token expiry (but inside the lifetime): several requests, none may be served
+		b.Advance(R + time.Duration(120+r.Intn(3000))*time.Second - b.VNow)
+		for k := 0; k < 2+r.Intn(3); k++ {
+			if b.Cookie == "" {
+				break
+			}
+			target := targets[r.Intn(len(targets))]
+			rs, _, _ := b.Do(sut.Req{Target: target})
+			if rs.Err != nil {
+				rep.Count("client_errors", 1)
+				return
+			}
+			if len(ps.Hits(rs.ID)) > 0 || (target == "/oauth2/auth" && rs.Status == 202) {
+				rep.Violate("c04-no-refresh-token", i, "served-without-due-check site=proxy missing=no-confirming-exchange session=without-refresh-token",
+					fmt.Sprintf("the access token of a session without refresh token expired at %v, request %d at %v was served", R, k+1, b.VNow),
+					map[string]interface{}{"index": i, "host": host, "request": k + 1, "target": target, "status": rs.Status})
+				return
+			}
+			b.Advance(time.Duration(30+r.Intn(900)) * time.Second)
+		}
+		rep.Count("no_refresh_token_refused_after_token_expiry", 1)
+	})
+	if only < 0 {
+		rep.Floor("no_refresh_token_refused_after_token_expiry", 40)
+	}
 }
